@@ -186,11 +186,11 @@ def _walk(ctx):
 @st.composite
 def sampled(draw):
     locs = data.all_locales()
-    locale, lang = locs[draw(st.integers(0, len(locs) - 1))]
+    locale, lang = draw(st.sampled_from(locs))
     normalize = draw(st.booleans())
     skipdef = draw(st.booleans())
     names = names_for(locale, normalize, skipdef)
-    key, name = names[draw(st.integers(0, len(names) - 1))]
+    key, name = draw(st.sampled_from(names))
     y = draw(st.one_of(st.sampled_from(YEARS), st.integers(1000, 9999)))
     m = draw(st.integers(1, 12))
     return {"locale": locale, "lang": lang, "norm": normalize, "skipdef": skipdef, "key": key, "name": name,
